@@ -7,6 +7,7 @@ import (
 	"encoding/hex"
 	"fmt"
 	"math/rand"
+	"path"
 	"sort"
 	"strconv"
 	"strings"
@@ -138,7 +139,8 @@ func encFiles(fs []fileSpec) string {
 	}
 	var out []string
 	for _, f := range fs {
-		out = append(out, encPath(f.Name)+":"+hx(f.Data))
+		// the model's entries carry the cleaned relative name: ts.MkAbs is filepath.Join(ts.cd, name), which cleans
+		out = append(out, encPath(path.Clean(f.Name))+":"+hx(f.Data))
 	}
 	return strings.Join(out, ",")
 }
@@ -431,8 +433,13 @@ func genFiles(r *rand.Rand) []fileSpec {
 		}
 		out = append(out, fileSpec{Name: strings.Join(segs, "/"), Data: data})
 	}
-	if n > 0 && r.Intn(6) == 0 { // duplicate name, different data
-		out = append(out, fileSpec{Name: out[r.Intn(len(out))].Name, Data: "dup\n"})
+	if n > 0 && r.Intn(5) == 0 { // the same path again (spelt the same or through "x/../"), different data —
+		// shorter, equal or longer than the first entry's: the later entry must replace the earlier one whole
+		name := out[r.Intn(len(out))].Name
+		if r.Intn(2) == 0 {
+			name = "q/../" + name
+		}
+		out = append(out, fileSpec{Name: name, Data: []string{"dup\n", "", "a much longer replacement text\nwith two lines\n", "x\n"}[r.Intn(4)]})
 	}
 	return out
 }
@@ -442,10 +449,11 @@ func genScript(r *rand.Rand, coe bool, idx int) scriptSpec {
 	g := &genState{r: r, coe: coe, dirs: map[string]bool{".tmp": true}, files: map[string]bool{}}
 	// the generator's idea of the tree after unpacking (approximate when entries conflict)
 	for _, f := range s.Files {
-		if i := strings.LastIndex(f.Name, "/"); i >= 0 {
-			g.addDirs(f.Name[:i])
+		cn := path.Clean(f.Name)
+		if i := strings.LastIndex(cn, "/"); i >= 0 {
+			g.addDirs(cn[:i])
 		}
-		g.files[f.Name] = true
+		g.files[cn] = true
 	}
 	for p := range g.files {
 		if g.dirs[p] {
